@@ -535,8 +535,9 @@ def countLoop (it : String) : Nat → Nat → World → World × Out
 
 /-- the provided `Iterator::last` (`fold(None, |_, x| Some(x))`): the iterator is consumed; each element it yields
     replaces the accumulator, whose previous value is destroyed at that moment; the last one is handed to the caller
-    after the iterator itself has been dropped. When a step or a destructor unwinds, the accumulator is destroyed,
-    then the iterator is dropped (a second panic is the abort). -/
+    after the iterator itself has been dropped. When a step (`next()`) unwinds, the accumulator is destroyed, then the
+    iterator is dropped (a second panic is the abort); when the destructor of a replaced accumulator unwinds, the new
+    accumulator — already a return value — is leaked, and the iterator is dropped. -/
 def lastLoop (it : String) : Nat → Option Elem → World → World × Out
   | 0, _, w => (w, .stopped .fuel)
   | fuel + 1, prev, w =>
@@ -556,21 +557,11 @@ def lastLoop (it : String) : Nat → Option Elem → World → World × Out
        | some pv =>
          (match dropIn X w' pv with
           | (w'', none) => lastLoop it fuel (some e) w''
-          | (w'', some p) => unwind w'' (some e) p))
+          | (w'', some p) => unwind w'' none p))   -- (the new accumulator is leaked: return values are not dropped on unwind)
     | (w', .none) =>
       (match step X w' (.drop it) with
        | (w2, .ok) => (w2, optOut prev)
-       | (w2, .stopped q) =>
-         -- the value about to be returned is destroyed while the panic unwinds
-         (match prev with
-          | some pv =>
-            if VM.unwinds q then
-              (match dropIn X w2 pv with
-               | (w3, none) => (w3, .stopped q)
-               | (w3, some _) => (w3, .stopped .doublePanic))
-            else (w2, .stopped q)
-          | none => (w2, .stopped q))
-       | r => r)
+       | r => r)   -- (if the iterator's own drop unwinds, the value about to be returned is leaked)
     | (w', .stopped p) => unwind w' prev p
     | r => r
 
